@@ -329,7 +329,8 @@ def replay(beh_path, mode="inline", nproc=NPROC, base_seed=None, fs=True, timeou
             extra = os.environ.get("VERIF_CRASH_ARGS", "").split() if exe_name == "crash" else []
             p = subprocess.Popen([exe, "-in", beh_path, "-mode", mode, "-seed", str(base_seed), "-from", str(frm),
                                   "-count", str(cnt), "-fs=%s" % ("true" if fs else "false")] + extra,
-                                 stdout=fh, stderr=subprocess.PIPE, env=GOENV)
+                                 stdout=fh, stderr=subprocess.PIPE,
+                                 env=dict(GOENV, **{k: v for k, v in os.environ.items() if k.startswith("VERIF_FAULTS_")}))
             return (p, fh, outp, job)
         pending = list(jobs)
         while pending or running:
